@@ -72,41 +72,6 @@ Definition disallow_future_use (o : oid) : M unit :=
       upd_obs o (fun ob => ob <| o_state := ODisallowed |>)
   end.
 
-(* Observer::try_subscribe (public.rs:95) + InternalObserver::subscribe (internal_observer.rs:203) *)
-Definition subscribe (o : oid) (h : hfn) : M (Z + Z) :=
-  ob <- get_obs o ;;
-  now <- gets stab_num ;;
-  match o_state ob with
-  | ODisallowed | OUnlinked => ret (inr ERR_DISALLOWED)
-  | _ =>
-    let token := o_next_token ob in
-    upd_obs o (fun ob => ob <| o_next_token := token + 1 |>
-                            <| o_handlers := o_handlers ob ++ [Handler token h PNever now] |>) ;;;
-    (match o_state ob with
-     | OInUse => upd_node (o_observing ob) (fun x => x <| n_num_handlers := n_num_handlers x + 1 |>)
-     | _ => ret tt
-     end) ;;;
-    handle_after_stabilisation (o_observing ob) ;;;
-    ret (inl token)
-  end.
-
-(* InternalObserver::unsubscribe (internal_observer.rs:117); token = (observer id, number) *)
-Definition unsubscribe (o : oid) (tok_obs : oid) (tok : Z) : M Z :=
-  if negb (bool_decide (tok_obs = o)) then ret ERR_MISMATCH else
-  ob <- get_obs o ;;
-  match o_state ob with
-  | ODisallowed | OUnlinked => ret 0
-  | _ =>
-    if negb (existsb (fun h => bool_decide (hd_token h = tok)) (o_handlers ob)) then ret 0 else   (* already removed *)
-    upd_obs o (fun ob => ob <| o_handlers := filter (fun h => hd_token h ≠ tok) (o_handlers ob) |>) ;;;
-    (match o_state ob with
-     | OInUse =>
-         upd_node (o_observing ob) (fun x => x <| n_num_handlers := n_num_handlers x - 1 |>)
-     | _ => ret tt
-     end) ;;;
-    ret 0
-  end.
-
 (* State::unsubscribe (state.rs:438) *)
 Definition state_unsubscribe (tok_obs : oid) (tok : Z) : M unit :=
   s <- get ;;
@@ -173,7 +138,10 @@ Definition run_all (o : oid) (n : nid) (nu : node_update) (now : Z) : M unit :=
       match o_state ob with
       | OCreated | OUnlinked => panic (PAssert 420)
       | ODisallowed => ret tt
-      | OInUse => handler_run o ix h n nu now
+      | OInUse =>
+          modify (fun s => s <| running_obs := Some o |>) ;;;
+          handler_run o ix h n nu now ;;;
+          modify (fun s => s <| running_obs := None |>)
       end
     end).
 
@@ -279,7 +247,7 @@ Definition init_state (max_height : Z) (dbg : bool) : state :=
         (replicate (Z.to_nat (max_height + 1)) []) (max_height + 1) 0
         (replicate (Z.to_nat (max_height + 1)) []) (max_height + 1) 0 0
         NotStabilising 0 [] [] [] [] [] [] STop [] []
-        0 0 0 0 0 0 0 0 dbg [] [] [] [] [] [] [] [] None 0%nat None.
+        0 0 0 0 0 0 0 0 dbg [] [] [] [] [] [] [] [] None None 0%nat None.
 
 (* ------------------------------------------------------------ histories *)
 Notation hnode := nat (only parsing).   (* index into the table of node handles *)
@@ -547,6 +515,10 @@ Definition step (fuel : nat) (st : istate) (o : op) : M (istate * out) :=
 (* run a history; a panicking op leaves the state it reached (catch_unwind in the harness)
    and the history continues.  The trace is one entry per op: its result and the events it emitted
    (oldest first). *)
+(* between two operations of the program: whatever the operation did (including unwinding from a panic),
+   its temporaries are gone and no handler table is borrowed any more *)
+Definition end_of_op (s : state) : state := (collect [] s).2 <| running_obs := None |>.
+
 Fixpoint run (fuel : nat) (ops : list op) (st : istate) (s : state)
   : list (res out * list event * state) :=
   match ops with
@@ -560,7 +532,7 @@ Fixpoint run (fuel : nat) (ops : list op) (st : istate) (s : state)
                       | OutOfFuel => (st, OutOfFuel)
                       end in
     (* whatever the op did (including unwinding from a panic), its temporaries are gone now *)
-    let s1 := (collect [] s1).2 in
+    let s1 := end_of_op s1 in
     (ro, rev (events s1), s1) :: run fuel ops' st' s1
   end.
 
